@@ -24,6 +24,7 @@ import (
 	"strconv"
 	"strings"
 	"sync"
+	"sync/atomic"
 	"time"
 )
 
@@ -79,6 +80,40 @@ type workerLine struct {
 	Trace  []string `json:"trace"`
 	Used   []uint32 `json:"used"`
 	States []string `json:"states"`
+}
+
+type job struct{ from, to int }
+
+// properties whose statement covers a panic of the code under test (server / store goroutine dies)
+var panicInScope = map[string]bool{"C08": true, "C09": true, "C15": true, "C19": true, "C20": true}
+
+// panicFrame extracts the panic message and the top frame inside the repository from a crashed worker's output.
+func panicFrame(out string) (string, string) {
+	i := strings.Index(out, "panic: ")
+	if i < 0 {
+		i = strings.Index(out, "fatal error: ")
+		if i < 0 {
+			return "", ""
+		}
+	}
+	rest := out[i:]
+	msg := rest
+	if j := strings.Index(msg, "\n"); j >= 0 {
+		msg = msg[:j]
+	}
+	if strings.Contains(msg, "test timed out") {
+		return "", ""
+	}
+	for _, l := range strings.Split(rest, "\n") {
+		l = strings.TrimSpace(l)
+		if strings.HasPrefix(l, "/repo/pkg/") {
+			if j := strings.Index(l, " "); j >= 0 {
+				l = l[:j]
+			}
+			return strings.TrimPrefix(l, "/repo/"), msg
+		}
+	}
+	return "", msg
 }
 
 type planHead struct {
@@ -407,16 +442,21 @@ func main() {
 	}
 
 	a := newAgg()
-	type job struct{ from, to int }
-	jobs := make(chan job, 1024)
+	jobs := make(chan job, 4096)
 	var wg sync.WaitGroup
-	var failMu sync.Mutex
+	var failMu, pendingMu sync.Mutex
 	var workerFail []string
+	var retry []job
+	var inFlight int64
+	panicPlans := map[string][]byte{}
+	panicMsgs := map[string]string{}
+	panicCount := map[string]int{}
 	for w := 0; w < *workers; w++ {
 		wg.Add(1)
 		go func(w int) {
 			defer wg.Done()
 			for j := range jobs {
+				atomicAdd(&inFlight, 1)
 				out := filepath.Join(work, fmt.Sprintf("shard-%d-%d.jsonl", j.from, j.to))
 				env := append(goEnv(), "GOMAXPROCS=1", "VERIF_PROP="+prop, "VERIF_TIER="+*tier, fmt.Sprintf("VERIF_BASE=%d", seed),
 					fmt.Sprintf("VERIF_FROM=%d", j.from), fmt.Sprintf("VERIF_TO=%d", j.to), "VERIF_OUT="+out)
@@ -432,16 +472,35 @@ func main() {
 					a.add(l)
 				}
 				if err != nil || len(lines) < j.to-j.from {
-					// a worker died: a panic on a repository goroutine (or a watchdog). Attribute it.
-					failMu.Lock()
+					// a worker died: a panic on a goroutine of the code under test (or a watchdog)
 					tail := buf.String()
-					if len(tail) > 6000 {
-						tail = tail[len(tail)-6000:]
+					if len(tail) > 12000 {
+						tail = tail[len(tail)-12000:]
 					}
-					workerFail = append(workerFail, fmt.Sprintf("worker for runs [%d,%d) failed after %d runs: %v\n%s", j.from, j.to, len(lines), err, tail))
+					cur, _ := os.ReadFile(out + ".current")
+					frame, msg := panicFrame(tail)
+					failMu.Lock()
+					if frame != "" && panicInScope[prop] && len(cur) > 0 {
+						sig := prop + "/panic/" + frame
+						panicCount[sig]++
+						if _, ok := panicPlans[sig]; !ok {
+							panicPlans[sig] = cur
+							panicMsgs[sig] = msg
+						}
+					} else {
+						workerFail = append(workerFail, fmt.Sprintf("worker for runs [%d,%d) failed after %d runs: %v\n%s", j.from, j.to, len(lines), err, tail))
+					}
 					failMu.Unlock()
+					// the rest of the chunk is run by a fresh process (the failing ordinal is skipped)
+					if next := j.from + len(lines) + 1; next < j.to && len(lines) < j.to-j.from {
+						pendingMu.Lock()
+						retry = append(retry, job{next, j.to})
+						pendingMu.Unlock()
+					}
 				}
+				os.Remove(out + ".current")
 				os.Remove(out)
+				atomicAdd(&inFlight, -1)
 			}
 		}(w)
 	}
@@ -464,6 +523,26 @@ func main() {
 			to = n
 		}
 		jobs <- job{from, to}
+	}
+	// wait for the queue to drain, re-dispatching the remainders of chunks whose worker died
+	for {
+		for len(jobs) > 0 {
+			time.Sleep(50 * time.Millisecond)
+		}
+		time.Sleep(300 * time.Millisecond)
+		pendingMu.Lock()
+		r := retry
+		retry = nil
+		pendingMu.Unlock()
+		if len(r) == 0 {
+			if idle(&inFlight) {
+				break
+			}
+			continue
+		}
+		for _, j := range r {
+			jobs <- j
+		}
 	}
 	close(jobs)
 	wg.Wait()
@@ -535,6 +614,35 @@ func main() {
 		}
 		fmt.Printf("violation: %s (seen in %d runs): %s\n", o.sig, a.violCount[o.sig], o.msg)
 		fmt.Printf("VIOLATION property=%s replay=%s\n", prop, o.path)
+		exit = 1
+	}
+	psigs := make([]string, 0, len(panicPlans))
+	for s := range panicPlans {
+		psigs = append(psigs, s)
+	}
+	sort.Strings(psigs)
+	for _, sig := range psigs {
+		known := false
+		for _, k := range kfs {
+			if sigMatches(k.f.sig, sig) {
+				k.observed += panicCount[sig]
+				known = true
+			}
+		}
+		if known {
+			continue
+		}
+		newViol++
+		path := writePanicReplay(bin, work, prop, sig, panicPlans[sig], panicMsgs[sig], seed)
+		if path == "" {
+			fmt.Fprintf(os.Stderr, "check: worker panic %s did not reproduce in a fresh process (exit 2)\n", sig)
+			if exit == 0 {
+				exit = 2
+			}
+			continue
+		}
+		fmt.Printf("violation: %s (process died in %d runs): %s\n", sig, panicCount[sig], panicMsgs[sig])
+		fmt.Printf("VIOLATION property=%s replay=%s\n", prop, path)
 		exit = 1
 	}
 	for _, k := range kfs {
@@ -669,9 +777,12 @@ func minimiseAndWrite(bin, work, prop, sig string, l *workerLine, seed uint64, m
 func replayOnce(bin, work, file, sig string) string {
 	out := filepath.Join(work, "kf-replay.json")
 	os.Remove(out)
-	_, _ = runWorkerTest(bin, work, "TestReplay", []string{"VERIF_PLAN=" + file, "VERIF_OUT=" + out}, 3*time.Minute)
+	wout, _ := runWorkerTest(bin, work, "TestReplay", []string{"VERIF_PLAN=" + file, "VERIF_OUT=" + out}, 3*time.Minute)
 	b, err := os.ReadFile(out)
 	if err != nil {
+		if frame, _ := panicFrame(wout); frame != "" && strings.Contains(sig, "/panic/") {
+			return "still reproduces (process dies)"
+		}
 		return "could not be replayed"
 	}
 	wl := &workerLine{}
@@ -703,6 +814,17 @@ func doReplay(bin, work, prop, file string) int {
 	log, _ := runWorkerTest(bin, work, "TestReplay", []string{"VERIF_PLAN=" + file, "VERIF_OUT=" + out, "VERIF_VERBOSE=1"}, 5*time.Minute)
 	ob, err := os.ReadFile(out)
 	if err != nil {
+		if frame, msg := panicFrame(log); frame != "" {
+			sig := prop + "/panic/" + frame
+			fmt.Printf("the replayed run killed the process: %s at %s\n", msg, frame)
+			if rf.Violation == nil || rf.Violation.Sig == sig {
+				fmt.Printf("VIOLATION property=%s replay=%s\n", prop, file)
+				return 1
+			}
+			fmt.Printf("(recorded signature was %s)\n", rf.Violation.Sig)
+			fmt.Printf("VIOLATION property=%s replay=%s\n", prop, file)
+			return 1
+		}
 		fmt.Fprintf(os.Stderr, "%s\n", log)
 		fatal2("replay produced no result")
 	}
@@ -839,4 +961,31 @@ func tailStr(s string, n int) string {
 		return s[len(s)-n:]
 	}
 	return s
+}
+
+func atomicAdd(p *int64, d int64) { atomic.AddInt64(p, d) }
+func idle(p *int64) bool        { return atomic.LoadInt64(p) == 0 }
+
+// writePanicReplay confirms that the plan kills a fresh process with the same top frame and writes the replay file.
+func writePanicReplay(bin, work, prop, sig string, plan []byte, msg string, seed uint64) string {
+	tag := fmt.Sprintf("%x", sha256.Sum256([]byte(sig)))[:8]
+	planPath := filepath.Join(work, "panic-"+tag+".plan.json")
+	_ = os.WriteFile(planPath, plan, 0644)
+	out, err := runWorkerTest(bin, work, "TestReplay", []string{"VERIF_PLAN=" + planPath, "VERIF_OUT=" + filepath.Join(work, "panic-"+tag+".out.json")}, 3*time.Minute)
+	frame, _ := panicFrame(out)
+	if err == nil || prop+"/panic/"+frame != sig {
+		return ""
+	}
+	rf := map[string]any{
+		"property": prop, "violation": map[string]any{"property": prop, "oracle": "panic", "signature": sig, "message": msg}, "seed": seed,
+		"plan": json.RawMessage(plan), "processDies": true, "buildInfo": repoInfo(),
+		"replay": fmt.Sprintf("cd /verif && ./bin/check %s --replay <this file>", prop),
+	}
+	b, _ := json.MarshalIndent(rf, "", " ")
+	_ = os.MkdirAll(filepath.Join(verifDir, "replays"), 0755)
+	path := filepath.Join(verifDir, "replays", fmt.Sprintf("%s-%d-%s.json", prop, seed, tag))
+	if os.WriteFile(path, b, 0644) != nil {
+		return ""
+	}
+	return path
 }
